@@ -1,6 +1,8 @@
 package gen
 
 import (
+	"math"
+
 	"ivgverif/internal/run"
 )
 
@@ -191,8 +193,9 @@ func DrawingOpcode(r *run.Rng) byte {
 	return op
 }
 
-// Metadata appends a valid metadata section (0, 1 or 2 chunks, MIDs
-// increasing) with random content.
+// Metadata appends a metadata section (0, 1 or 2 chunks, MIDs increasing)
+// with random content; it is valid except for one viewBox variant in ten that
+// carries a non-finite bound.
 func (a *Asm) Metadata(r *run.Rng) {
 	hasVB, hasPal := r.Chance(1, 3), r.Chance(1, 3)
 	n := 0
@@ -206,20 +209,47 @@ func (a *Asm) Metadata(r *run.Rng) {
 	if hasVB {
 		var c Asm
 		c.Nat(0, RandWidth(r))
-		// min <= max with finite numbers: use the 1-byte and 2-byte forms and
-		// order them.
-		x0, x1 := r.Intn(100), r.Intn(100)
-		if x0 > x1 {
-			x0, x1 = x1, x0
+		f4 := func(f float32) uint32 { return math.Float32bits(f) >> 2 }
+		switch r.Intn(10) {
+		case 0:
+			// huge finite bounds of opposite sign: valid, although max-min overflows float32
+			big := []float32{3.4028235e38, 2.5e38, 1e38, 3e37}
+			c.Nat(f4(-big[r.Intn(4)]), 4)
+			c.Nat(f4(-big[r.Intn(4)]), 4)
+			c.Nat(f4(big[r.Intn(4)]), 4)
+			c.Nat(f4(big[r.Intn(4)]), 4)
+		case 1:
+			// one non-finite bound (invalid), in any position and of either sign
+			k := r.Intn(4)
+			for i := 0; i < 4; i++ {
+				if i == k {
+					c.Nat(f4(float32(r.PickF(math.Inf(1), math.Inf(-1), math.NaN(), -math.NaN()))), 4)
+				} else {
+					c.Nat(uint32(64+(i/2)*8), 1)
+				}
+			}
+		case 2:
+			// degenerate: min == max
+			x, y := r.Intn(100), r.Intn(100)
+			c.Nat(uint32(x), 1)
+			c.Nat(uint32(y), 1)
+			c.Nat(uint32(x), 1)
+			c.Nat(uint32(y), 1)
+		default:
+			// min <= max with small finite numbers in the 1-byte form
+			x0, x1 := r.Intn(100), r.Intn(100)
+			if x0 > x1 {
+				x0, x1 = x1, x0
+			}
+			y0, y1 := r.Intn(100), r.Intn(100)
+			if y0 > y1 {
+				y0, y1 = y1, y0
+			}
+			c.Nat(uint32(x0), 1)
+			c.Nat(uint32(y0), 1)
+			c.Nat(uint32(x1), 1)
+			c.Nat(uint32(y1), 1)
 		}
-		y0, y1 := r.Intn(100), r.Intn(100)
-		if y0 > y1 {
-			y0, y1 = y1, y0
-		}
-		c.Nat(uint32(x0), 1)
-		c.Nat(uint32(y0), 1)
-		c.Nat(uint32(x1), 1)
-		c.Nat(uint32(y1), 1)
 		a.Nat(uint32(len(c.B)), RandWidth(r))
 		a.Byte(c.B...)
 	}
